@@ -189,6 +189,10 @@ pub(crate) struct Context {
     // A queue of gray objects that became gray as a result
     // of a write barrier.
     gray_again: Queue<GcPtr>,
+
+    // Verification hook: log of the micro-steps taken by the driver loop.
+    #[cfg(gc_arena_verif)]
+    verif_log: core::cell::RefCell<Vec<u8>>,
 }
 
 impl Drop for Context {
@@ -235,6 +239,8 @@ impl Context {
             root_needs_trace: true,
             gray: Queue::new(),
             gray_again: Queue::new(),
+            #[cfg(gc_arena_verif)]
+            verif_log: core::cell::RefCell::new(Vec::new()),
         }
     }
 
@@ -565,6 +571,15 @@ impl Context {
             None
         };
 
+        #[cfg(gc_arena_verif)]
+        self.verif_step(if next_gray.is_some() {
+            b'g'
+        } else if self.root_needs_trace {
+            b'r'
+        } else {
+            b'b'
+        });
+
         if let Some(gc_ptr) = next_gray {
             // We always mark work for objects processed from both the gray and "gray again" queue.
             // When objects are placed into the "gray again" queue due to a write barrier, the
@@ -613,6 +628,9 @@ impl Context {
     }
 
     fn sweep_one(&mut self) -> ControlFlow<()> {
+        #[cfg(gc_arena_verif)]
+        self.verif_step(if self.sweep.is_some() { b'x' } else { b'e' });
+
         let Some(mut sweep) = self.sweep else {
             self.sweep_prev.set(None);
             return ControlFlow::Break(());
@@ -695,6 +713,81 @@ impl Context {
     }
 }
 
+// Verification hooks: read-only views of the collector state (never used by the crate itself).
+#[cfg(gc_arena_verif)]
+impl Context {
+    fn verif_step(&self, step: u8) {
+        self.verif_log.borrow_mut().push(step);
+    }
+
+    pub(crate) fn verif_take_log(&self) -> Vec<u8> {
+        mem::take(&mut *self.verif_log.borrow_mut())
+    }
+
+    pub(crate) fn verif_snapshot(&self) -> crate::verif::Snapshot {
+        use crate::verif::{ObjSnapshot, Snapshot};
+
+        let mut all = Vec::new();
+        let mut truncated = false;
+        let mut cursor = self.all.get();
+        while let Some(gc_ptr) = cursor {
+            if all.len() >= crate::verif::MAX_WALK {
+                truncated = true;
+                break;
+            }
+            let header = gc_ptr.header();
+            all.push(ObjSnapshot {
+                addr: gc_ptr.as_ptr() as usize,
+                color: match header.color() {
+                    GcColor::White => b'W',
+                    GcColor::WhiteWeak => b'w',
+                    GcColor::Gray => b'G',
+                    GcColor::Black => b'B',
+                },
+                needs_trace: header.needs_trace(),
+                live: header.is_live(),
+            });
+            cursor = header.next();
+        }
+
+        Snapshot {
+            phase: match self.phase {
+                Phase::Mark => b'M',
+                Phase::Sweep => b'S',
+                Phase::Sleep => b'Z',
+                Phase::Drop => b'D',
+            },
+            root_needs_trace: self.root_needs_trace,
+            all,
+            truncated,
+            sweep: self.sweep.map(|p| p.as_ptr() as usize),
+            sweep_prev: self.sweep_prev.get().map(|p| p.as_ptr() as usize),
+            gray: self.gray.verif_addrs(),
+            gray_again: self.gray_again.verif_addrs(),
+        }
+    }
+}
+
+#[cfg(gc_arena_verif)]
+impl<'gc> Mutation<'gc> {
+    /// Verification hook: read-only snapshot of the collector state.
+    pub fn verif_snapshot(&self) -> crate::verif::Snapshot {
+        self.context.verif_snapshot()
+    }
+}
+
+#[cfg(gc_arena_verif)]
+impl Queue<GcPtr> {
+    fn verif_addrs(&self) -> Vec<usize> {
+        unsafe {
+            (*self.vec.get().cast_const())
+                .iter()
+                .map(|p| p.as_ptr() as usize)
+                .collect()
+        }
+    }
+}
+
 /// Helper type for managing phase transitions.
 struct PhaseGuard<'a> {
     cx: &'a mut Context,
@@ -749,6 +842,14 @@ impl<'a> PhaseGuard<'a> {
 
     fn switch(&mut self, phase: Phase) {
         self.cx.phase = phase;
+
+        #[cfg(gc_arena_verif)]
+        self.cx.verif_step(match phase {
+            Phase::Mark => b'W',
+            Phase::Sweep => b'S',
+            Phase::Sleep => b'Z',
+            Phase::Drop => b'D',
+        });
 
         #[cfg(feature = "tracing")]
         {
